@@ -149,6 +149,8 @@ class Executor(StmtMixin, LoopMixin, DriverMixin):
         if decl is not None:
             val = ops.coerce(val, self.spec.T(decl))
         self.var_types[name] = val.t
+        if isinstance(val.t, ty.RefT) and not self.discovery:
+            self.type_facts(st, val)   # type invariant: a value of declared class C is an instance of C
         if self.is_container(val.t):
             if isinstance(src_node, ast.Name) and isinstance(st.vars.get(src_node.id), (Box, FieldAlias)):
                 st.vars[name] = st.vars[src_node.id]
